@@ -389,7 +389,10 @@ pub fn c15_huffman(src: &mut Src, ctx: &mut Ctx) -> CaseResult {
             let k = src.below(1900) as i32 - 1000;
             let scale = 2f64.powi(k);
             let w: Vec<f64> = if deep {
-                let mut v: Vec<f64> = (0..n).map(|i| 2f64.powi(-(i as i32))).collect();
+                // base 2: every weight equals the sum of all lighter ones plus the lightest (ties all the way up); base 4: every
+                // weight exceeds the sum of all lighter ones, which puts the long chain on the other side of the tree
+                let base: f64 = if n % 3 == 0 { 4.0 } else { 2.0 };
+                let mut v: Vec<f64> = (0..n).map(|i| base.powi(-(i as i32))).collect();
                 if deep_reversed {
                     v.reverse();
                 }
